@@ -314,16 +314,27 @@ def max_len(tier):
     return 4 if tier == "thorough" else 3
 
 
+# one representative per class of character an escaping routine may treat specially: C0 / DEL / C1 controls, format and
+# separator characters, non-characters, the last code point before the surrogates, private use and unassigned / tag
+# characters beyond the BMP (non-printable AND needing more than four hex digits)
+RARE = ["\x00", "\x01", "\x7f", "\x85", "\xa0", "\xad", "\u200b", "\u2028", "\ufeff", "\ud7ff", "\ufffd", "\uffff", "\U000e0067", "\U000f0000", "\U0010fffd", "\U0001f1ec", "\U00020000"]
+RARE_SHAPES = ["{c}", "a{c}", "{c}a", "{c}{c}", '{c}"', "\\{c}", "{c}7", "{c}0f", "'{c}"]
+
+
+def rare_strings():
+    return [sh.replace("{c}", c) for c in RARE for sh in RARE_SHAPES]
+
+
 def strings(tier):
     out = [""]
     for n in range(1, max_len(tier) + 1):
         out.extend("".join(t) for t in itertools.product(ALPHABET, repeat=n))
-    return out
+    return out + rare_strings()
 
 
 def count_strings(tier):
     a = len(ALPHABET)
-    return (a ** (max_len(tier) + 1) - 1) // (a - 1)
+    return (a ** (max_len(tier) + 1) - 1) // (a - 1) + len(RARE) * len(RARE_SHAPES)
 
 
 def literal_probe(position, s):
@@ -577,6 +588,10 @@ def hist_alphabet():
         out.append(("ec2", {"type": "value", "key": key, "op": "eq", "value": "x"}))
         out.append(("ec2", {"type": "value", "key": key, "value": "present"}))
         out.append(("ec2", {"type": "value", "key": key, "op": "gt", "value": 3, "value_type": "size"}))
+    # value clauses that differ only in a value which == / hash confuse (1, true, 1.0; 0, false) or in its spelling as text
+    for op in ("eq", "ne"):
+        for v in (1, True, 1.0, 0, False, "1", "true"):
+            out.append(("ec2", {"type": "value", "key": H_KEYS[0], "op": op, "value": v}))
     for typ, rtype in (("security-group", "ec2"), ("vpc", "ec2"), ("kms-key", "efs"), ("subnet", "asg")):
         for key in H_KEYS[2:]:
             out.append((rtype, {"type": typ, "key": key, "op": "eq", "value": "x"}))
